@@ -632,32 +632,54 @@ def cs1(ctx, R):
     n_inst = 0
     for fi in sorted(prog.functions.values(), key=lambda f: f.qual):
         for loop in [n for n in walk_body(fi.node) if isinstance(n, ast.For)]:
-            incs = [s for s in loop.body if isinstance(s, ast.AugAssign) and isinstance(s.target, ast.Name) and isinstance(s.op, ast.Add)
-                    and isinstance(s.value, ast.Constant) and s.value.value == 1]
-            for inc in incs:
-                v = inc.target.id
+            def own(n, loop=loop):
+                """statements of this loop's body that are not inside a nested loop"""
+                out = []
+                stack = list(loop.body)
+                while stack:
+                    x = stack.pop()
+                    out.append(x)
+                    if isinstance(x, (ast.For, ast.While, ast.FunctionDef)):
+                        continue
+                    for f_ in ("body", "orelse", "finalbody", "handlers"):
+                        for y in getattr(x, f_, []) or []:
+                            stack.append(y)
+                return out
+            all_incs = [s_ for s_ in own(loop) if isinstance(s_, ast.AugAssign) and isinstance(s_.target, ast.Name) and isinstance(s_.op, ast.Add)
+                        and isinstance(s_.value, ast.Constant) and s_.value.value == 1]
+            for v in sorted({i.target.id for i in all_incs}):
+                incs = [i for i in all_incs if i.target.id == v]
                 # positional use: compared or used as an index inside the body
                 used_pos = any((isinstance(x, ast.Compare) and v in _names(x)) or (isinstance(x, ast.Subscript) and v in _names(x.slice))
-                               for s in loop.body for x in ast.walk(s))
+                               for s_ in loop.body for x in ast.walk(s_))
                 if not used_pos:
                     continue
                 n_inst += 1
                 cfg = ctx.cfg(fi)
                 heads = cfg.where(lambda n: n.kind == "for" and n.ast is loop)
                 ok = True
+                twice = False
                 wit = None
+                through = lambda n: any(n.ast is i for i in incs)
                 for h in heads:
-                    through = lambda n: n.ast is inc
                     starts = [m for m, k in h.succ if k == "loop" and not through(m)]
                     r = cfg.reach(starts, avoid=through, follow_exc=False) if starts else set()
                     if h in r:
                         ok = False
                         wit = cfg.path_to(h)
+                    # no path of one iteration passes two increments
+                    for n in cfg.where(through):
+                        r2 = cfg.reach([m for m, k in n.succ if k not in ("exc", "uncaught") and m is not h], avoid=lambda m, h=h: m is h, follow_exc=False)
+                        if any(through(m) for m in r2):
+                            twice = True
                 key = "%s::loop counter %s" % (fi.qual, v)
-                if ok:
-                    R.ok(key, fi.where(inc), "every path through the loop body passes `%s += 1`" % v)
+                if ok and not twice:
+                    R.ok(key, fi.where(incs[0]), "every path through the loop body passes `%s += 1` exactly once" % v)
+                elif twice:
+                    R.violation(key, fi.where(incs[0]), "`%s += 1` is executed twice on a path of the loop body: afterwards `%s` no longer names the position "
+                                "of the loop item" % (v, v))
                 else:
-                    R.violation(key, fi.where(inc), "`%s += 1` is skipped on a path of the loop body (e.g. through `continue`): afterwards `%s` no longer "
+                    R.violation(key, fi.where(incs[0]), "`%s += 1` is skipped on a path of the loop body (e.g. through `continue`): afterwards `%s` no longer "
                                 "names the position of the loop item, and comparisons against it select the wrong segment" % (v, v),
                                 path=cfg.describe_path(wit) if wit else None)
     # positive control
@@ -713,19 +735,46 @@ def es1(ctx, R):
 
 @rule("CS2", "data and every scaler array are windowed by the same slice", floor=2)
 def cs2(ctx, R):
+    """In normal form, the windows applied to the data array and to the scaler arrays are compared (each window is made relative to
+    the array it is applied to, since bounds such as len(x) - trim mention the array)."""
+    from .sym import Sym, show, alpha
+    from .sem import find, W, subst
     prog = ctx.prog
+
+    def is_window(w):
+        if not isinstance(w, tuple) or not w:
+            return False
+        if w[0] == "slice" or (w[0] == "call" and w[1] == "slice"):
+            return True
+        if w[0] == "phi":
+            return is_window(w[2]) and is_window(w[3])
+        return False
+
+    def norm_window(w):
+        if w[0] == "call" and w[1] == "slice":
+            a = list(w[2]) + [("const", None)] * (3 - len(w[2]))
+            if len(w[2]) == 1:
+                a = [("const", None), w[2][0], ("const", None)]
+            return ("slice",) + tuple(a[:3])
+        if w[0] == "phi":
+            return ("phi", w[1], norm_window(w[2]), norm_window(w[3]))
+        return w
     for q in ("reader._trim_channel_chunk", "channel_data.slice_raw_data"):
         fi = prog.func(q)
-        slices = [n for n in ast.walk(fi.node) if isinstance(n, ast.Subscript) and isinstance(n.slice, ast.Slice)]
-        norm = set()
-        for s in slices:
-            base = unparse(s.value)
-            norm.add(unparse(s.slice).replace(base, "<x>"))
-        if len(slices) < 2:
-            R.violation(q, fi.where(), "only %d slice expression(s): data and scaler data are not both windowed" % len(slices))
+        v = Sym(prog, fi, None).function_value()
+        apps = [(x[1], x[2]) for x, _b in find(v, ("sub", W(), W())) if is_window(x[2])]
+        wins = {alpha(subst(norm_window(w), base, ("<x>",))) for base, w in apps}
+        on_data = [b for b, w in apps if b[0] == "attr" and b[2] == "data"]
+        on_scalers = [b for b, w in apps if not (b[0] == "attr" and b[2] == "data")]
+        if not on_data or not on_scalers:
+            if find(v, ("loop", W(), W())) or v[0] == "opaque":
+                R.undecided(q, fi.where(), "windowing of %s not in normal form" % ("the scaler arrays" if on_data else "the data"))
+            else:
+                R.violation(q, fi.where(), "%s: data and scaler data are not both windowed" % (
+                    "only the data array is sliced" if on_data else ("only the scaler arrays are sliced" if on_scalers else "no slice is applied")))
             continue
-        R.check(len(norm) == 1, q, fi.where(), "one slice `%s` applied to .data and to each scaler array" % list(norm)[0],
-                "different slices are applied to data and scaler data: %s" % sorted(norm))
+        R.check(len(wins) == 1, q, fi.where(), "one window `%s` applied to .data and to each scaler array" % show(list(wins)[0])[:80],
+                "different windows are applied to data and scaler data: %s" % sorted(show(w)[:80] for w in wins))
 
 
 # parameters where None means 'not given' and a falsy value (0, '') is meaningful
